@@ -9,7 +9,9 @@ results are handed to the model as parameters, the arguments are compared with
 what the model says the code hands to the kernel, and the contract the
 theorems assume of each result is checked numerically on every case.
 """
+import functools
 import math
+import traceback
 import warnings
 
 import numpy as np
@@ -48,7 +50,15 @@ CLAIM = {
             'only, channel only, both in either order, rejected arguments, decodes in between) are replayed step by '
             'step on the model object (kernel results of each step tapped) and compared with a fresh object; the '
             'filter decode() really applies (decoded identity block) is checked against the ZF / MMSE defining '
-            'equations of the CURRENT configuration, plus an SNR sweep s -> 0 then None on one object.',
+            'equations of the CURRENT configuration, plus an SNR sweep s -> 0 then None on one object. Every way '
+            'of handing the channel over -- constructor argument, set_channel_matrix on a channel-less object, '
+            'later replacement (also from the other layout), the same array set twice; vector or matrix layout for '
+            'MRC / MRT / Alamouti -- is one object: theorems constructor_is_setter, replacement_is_constructor, '
+            'channel_layouts_agree; the stored 2-D channel is read back (model op `channel`) after every '
+            'configuration step of every history, and an entry-point oracle checks stored shape, Nr/Nt/layers, '
+            'round trip, energy and all observables against a setter-configured object for every scheme x path x '
+            'layout on each run. An exception raised by the library anywhere in a correspondence step is recorded as '
+            'a broken correspondence and the run continues to the oracles (never a harness crash).',
     'note': 'Oracle-conditional: correctness of np.linalg.pinv / solve / svd and of the Givens sweep inside '
             'util.misc.gmd is a contract checked numerically on every case (Moore-Penrose conditions, A W = B, '
             'U S V^H = A with orthonormal factors, Q R P^H = A with unitary Q, P and upper-triangular R of constant '
@@ -1165,10 +1175,100 @@ def o_lifecycle(case):
     return None
 
 
+# ---- every way of handing the channel to a scheme ------------------------------------------------------
+ENTRY_PATHS = ('ctor', 'setter', 'replace', 'replace-other-layout', 'set-twice')
+
+
+def stored_shape(scheme, H2):
+    """what the class documents it keeps: always the 2-D channel (MRC Nr x 1, MRT 1 x Nt, Alamouti Nr x 2)"""
+    return tuple(H2.shape)
+
+
+def channel_arg(scheme, H2, layout):
+    """the documented layouts of one logical channel: 'matrix' (2-D) or 'vector' (MRC: Nr gains, MRT: Nt gains,
+    Alamouti: the two gains of a single receive antenna)"""
+    H2 = np.asarray(H2)
+    if layout == 'matrix':
+        return np.array(H2)
+    assert (scheme == 'mrc' and H2.shape[1] == 1) or (scheme in ('mrt', 'alamouti') and H2.shape[0] == 1)
+    return np.array(H2.reshape(-1))
+
+
+def build_by(scheme, path, arg, other):
+    """the object configured with `arg` through one of the entry points"""
+    m = _mimo()
+    cls = {'blast': m.Blast, 'mrc': m.MRC, 'mrt': m.MRT, 'svd': m.SVDMimo, 'gmd': m.GMDMimo, 'alamouti': m.Alamouti}[scheme]
+    if path == 'ctor':
+        return cls(arg)
+    if path == 'setter':
+        o = cls()
+        o.set_channel_matrix(arg)
+        return o
+    if path in ('replace', 'replace-other-layout'):
+        o = cls(other)
+        o.set_channel_matrix(arg)
+        return o
+    o = cls(arg)          # set-twice: the constructor and then the setter again with the same array
+    o.set_channel_matrix(arg)
+    o.set_channel_matrix(arg)
+    return o
+
+
+def o_entry(case):
+    """constructor argument, set_channel_matrix on a channel-less object, later replacement (also from the other
+    layout), vector or matrix layout: always the same stored 2-D channel, Nr / Nt / layers, round trip, energy and
+    observables"""
+    scheme, path, layout = case['scheme'], case['path'], case['layout']
+    H2, x, nv = dec(case['H']), dec(case['x']), case.get('nv', 0.0)
+    cls = 'entry:%s:%s:%s' % (scheme, path, layout)
+    fam = scheme in ('blast', 'mrc', 'svd', 'gmd')
+    with warnings.catch_warnings():
+        warnings.simplefilter('ignore')
+        try:
+            arg = channel_arg(scheme, H2, layout)
+            can_vec = (scheme == 'mrc' and H2.shape[1] == 1) or (scheme in ('mrt', 'alamouti') and H2.shape[0] == 1)
+            other_layout = 'vector' if (layout == 'matrix' and can_vec) else 'matrix'
+            if path == 'replace-other-layout':
+                other = channel_arg(scheme, H2 * (0.5 + 0.25j), other_layout)
+            else:
+                other = np.array(dec(case['other'])) if case.get('other') is not None else None
+            obj = build_by(scheme, path, arg, other)
+        except Exception as ex:
+            return cls, 'configuring the object raised %s: %s' % (type(ex).__name__, str(ex)[:150])
+        try:
+            ch = obj._channel
+            if not isinstance(ch, np.ndarray) or ch.ndim != 2 or tuple(ch.shape) != stored_shape(scheme, H2):
+                return cls, 'stored channel has shape %s, the %s scheme keeps %s' % (np.shape(ch), scheme, stored_shape(scheme, H2))
+            if not np.array_equal(ch, H2):
+                return cls, 'stored channel differs from the one handed over'
+            if (obj.Nr, obj.Nt) != tuple(H2.shape):
+                return cls, 'Nr, Nt = %r, %r for a %s channel' % (obj.Nr, obj.Nt, H2.shape)
+            want_layers = H2.shape[1] if scheme in ('blast', 'svd', 'gmd', 'mrc') else 1
+            if obj.getNumberOfLayers() != want_layers:
+                return cls, 'getNumberOfLayers() = %r' % obj.getNumberOfLayers()
+            if fam:
+                obj.set_noise_var(nv)
+            c = cond2(H2)
+            why = first_principles(obj, scheme, np.asarray(H2, dtype=complex), x, nv if fam else None, c)
+            if why:
+                return cls, why
+            ref = build_by(scheme, 'setter', np.array(H2), None)      # reference: setter path, matrix layout
+            if fam:
+                ref.set_noise_var(nv)
+            nv_q = 0.5 * amax(H2) ** 2
+            why = cmp_obs(observe_all(obj, scheme, x, nv_q), observe_all(ref, scheme, x, nv_q), c, x,
+                          'an object configured by set_channel_matrix with the 2-D channel')
+            if why:
+                return cls, why
+        except Exception as ex:
+            return cls, 'raised %s: %s' % (type(ex).__name__, str(ex)[:150])
+    return None
+
+
 ORACLES = {'roundtrip': o_roundtrip, 'energy': o_energy, 'zf': o_zf, 'mmse': o_mmse, 'mmse-limit': o_mmse_limit,
            'guard': o_reject, 'gmd': o_gmd, 'history': o_history, 'sweep': o_sweep,
            'dtype': o_dtype, 'layout': o_layout, 'immutable': o_immutable, 'rejected': o_rejected,
-           'boundary': o_boundary, 'scale': o_scale, 'lifecycle': o_lifecycle}
+           'boundary': o_boundary, 'scale': o_scale, 'lifecycle': o_lifecycle, 'entry': o_entry}
 
 
 def run_oracle(ctx, call, case, key=None, nontrivial=True):
@@ -1245,8 +1345,9 @@ def contract(ctx, name, why, case):
 class Batch:
     """queue driver lines with the comparison to run on each reply; one process per flush"""
 
-    def __init__(self, drv):
+    def __init__(self, drv, ctx=None):
         self.drv = drv
+        self.ctx = ctx
         self.items = []
 
     def add(self, line, fn):
@@ -1255,8 +1356,17 @@ class Batch:
     def flush(self):
         items, self.items = self.items, []
         out = self.drv.ask([l for l, _ in items]) if items else []
-        for (_, fn), o in zip(items, out):
-            fn(o)
+        for (line, fn), o in zip(items, out):
+            try:
+                fn(o)
+            except core.Infra:
+                raise
+            except Exception:  # a comparison that cannot even be carried out is a broken correspondence, not a crash
+                if self.ctx is None:
+                    raise
+                self.ctx.branch('harness-exception:compare')
+                self.ctx.tie_broken('correspondence', 'compare.exception:' + line.split(' ')[0],
+                                    traceback.format_exc()[-1500:], None)
 
 
 def xscale(c, x):
@@ -1521,10 +1631,17 @@ def corr_guards(ctx, drv):
     lines, impl, cases = [], [], []
     for kind, cls in (('miso', m.MRT), ('mrc', m.MRC), ('alamouti', m.Alamouti)):
         for dims in [[1], [2], [3], [5], [1, 1], [1, 2], [1, 4], [2, 1], [2, 2], [3, 2], [2, 3], [4, 1], [3, 3], [1, 3]]:
-            st, obj = call_impl(lambda: cls(np.ones(dims, dtype=complex)))
-            impl.append('%d,%d' % obj._channel.shape if st == 'ok' else st)
-            lines.append('shape %s %s' % (kind, ','.join(map(str, dims))))
-            cases.append({'kind': kind, 'dims': dims})
+            for path in ('ctor', 'setter'):   # the guard and the stored shape must not depend on the entry point
+                def build():
+                    if path == 'ctor':
+                        return cls(np.ones(dims, dtype=complex))
+                    o = cls()
+                    o.set_channel_matrix(np.ones(dims, dtype=complex))
+                    return o
+                st, obj = call_impl(build)
+                impl.append(','.join(str(d) for d in np.shape(obj._channel)) if st == 'ok' else st)
+                lines.append('shape %s %s' % (kind, ','.join(map(str, dims))))
+                cases.append({'kind': kind, 'dims': dims, 'path': path})
     for nv in [None, 0.0, 1e-300, 0.5, 3.0, -1e-300, -0.25, -7.0]:
         obj = make('blast', np.eye(2, dtype=complex))
         st, _ = call_impl(lambda: obj.set_noise_var(nv))
@@ -1614,11 +1731,20 @@ def corr_history(ctx, b, case, ck):
         b.add('hist %s %s' % (scheme, chan_tok(H0)), lambda o: ctx.corr('history.construct', case, st, o, key=ck + ('c',)))
         return
     fam = scheme in ('blast', 'mrc', 'svd', 'gmd')
+
+    def read_channel():
+        """the stored `_channel` (the model keeps it 2-D whichever way / layout it came in)"""
+        ch = obj._channel
+        toks.append('chan')
+        impl.append(('chan', 'done', None, None) if ch is None else ('chan', 'ok', np.array(ch), None))
+        ctx.branch('hist-op:chan')
+    read_channel()
     for k, a in hist_ops_from_case(case):
         if k == 'sc':
             st, _ = call_impl(lambda: obj.set_channel_matrix(a))
             toks.append('sc;' + chan_tok(a))
             impl.append(('set_channel', 'done' if st == 'ok' else st, None, None))
+            read_channel()
             ctx.branch('hist-op:set_channel:' + ('ok' if st == 'ok' else 'rejected'))
             if st != 'ok':
                 ctx.branch('R4:corr')
@@ -1686,7 +1812,7 @@ def corr_history(ctx, b, case, ck):
             why = 'arity'
             for v, a_ in zip(vals, arrs):
                 va = np.asarray(v, dtype=complex)
-                if va.size == a_.size:
+                if va.size == a_.size and kind != 'chan':   # the stored channel must have the model's SHAPE too
                     va = va.reshape(a_.shape)
                 sc = scale
                 if kind == 'flt':
@@ -1784,7 +1910,7 @@ SCHEMES = ('blast', 'mrc', 'mrt', 'svd', 'gmd', 'alamouti')
 def histories(ctx, g, reps, max_n):
     """correspondence + fresh-object oracle on seeded histories, every scheme"""
     drv = core.Driver(DRIVER)
-    b = Batch(drv)
+    b = Batch(drv, ctx)
     rng = ctx.rng
     idx = 0
     for rep in range(reps):
@@ -1874,6 +2000,27 @@ def corr_variant(ctx, b, scheme, Hv, xv, nv, ck):
     ctx.branch('R3:corr')
 
 
+def guarded(fn):
+    """an exception while driving the REAL code through a correspondence step (a changed tree may raise anywhere)
+    is a broken correspondence -- recorded, and the run goes on to the oracles that turn it into a failing input --
+    never a harness crash (exit 2)"""
+    @functools.wraps(fn)
+    def wrapper(ctx, *a, **k):
+        try:
+            return fn(ctx, *a, **k)
+        except core.Infra:
+            raise
+        except Exception:
+            ctx.branch('harness-exception:' + fn.__name__)
+            ctx.tie_broken('correspondence', fn.__name__ + '.exception', traceback.format_exc()[-1500:], None)
+            return None
+    return wrapper
+
+
+corr_blast, corr_svd, corr_gmd, corr_mrt, corr_alamouti = map(guarded, (corr_blast, corr_svd, corr_gmd, corr_mrt, corr_alamouti))
+corr_guards, corr_history, corr_variant = map(guarded, (corr_guards, corr_history, corr_variant))
+
+
 NV_VARIANTS = [(0.5, 'float'), (0.5, 'float32'), (0.5, 'float16'), (0.5, 'array0d'), (2, 'int'), (2, 'int8'), (2, 'uint8'),
                (1, 'int16'), (3, 'uint16'), (2, 'int32'), (2, 'int64'), (0, 'int'), (1, 'int'), (0, 'uint8')]
 
@@ -1882,7 +2029,7 @@ def robustness(ctx, g, reps, max_n):
     """R1-R7 for every scheme: first-principles / twin oracles on the real code and correspondence with the model"""
     rng = ctx.rng
     drv = core.Driver(DRIVER)
-    b = Batch(drv)
+    b = Batch(drv, ctx)
     idx = 0
     for rep in range(reps):
         for scheme in SCHEMES:
@@ -1910,7 +2057,7 @@ def robustness(ctx, g, reps, max_n):
             Hv, xv = cast_arr(dec(case['H']), case['hdt']), cast_arr(dec(case['x']), case['xdt'])
             nvv = mk_scalar(case['nv'], case['nvt']) if fam else 0.0
             with tol_factor(1e5 if is_single(case['hdt'], case['xdt']) else 1.0):
-                b1 = Batch(drv)
+                b1 = Batch(drv, ctx)
                 corr_variant(ctx, b1, scheme, Hv, xv, 0.0 if nvv is None else nvv, ('R1c', idx))
                 b1.flush()
             ctx.branch('R1:corr')
@@ -2010,6 +2157,65 @@ def robustness(ctx, g, reps, max_n):
     b.flush()
 
 
+def entry_paths(ctx, g, reps, max_n):
+    """every scheme x every entry point x every documented channel layout: oracle on the real code and the same
+    life cycle replayed on the model object (constructor / channel-less + setter / replacement), reading the stored
+    channel after every configuration step"""
+    rng = ctx.rng
+    drv = core.Driver(DRIVER)
+    b = Batch(drv, ctx)
+    idx = 0
+    for rep in range(reps):
+        for scheme in SCHEMES:
+            fam = scheme in ('blast', 'mrc', 'svd', 'gmd')
+            for layout in ('matrix', 'vector'):
+                if layout == 'vector' and scheme in ('blast', 'svd', 'gmd'):
+                    continue
+                for path in ENTRY_PATHS:
+                    idx += 1
+                    if scheme in ('blast', 'svd', 'gmd'):
+                        nt = rng.randint(1, min(max_n, 4))
+                        H2 = g.channel(rng.randint(nt, max_n), nt)[0]
+                    elif scheme == 'mrc':
+                        H2 = g.channel(rng.randint(1, max_n), 1)[0]
+                    elif scheme == 'mrt':
+                        H2 = g.channel(rng.randint(1, max_n), 1)[0].reshape(1, -1)
+                    else:
+                        nr = 1 if layout == 'vector' else rng.randint(1, max_n)
+                        H2 = g.channel(max(nr, 2), 2)[0][:nr, :] + 0.1
+                    H2 = np.array(H2, dtype=complex)
+                    x = g.data(n_symbols(rng, scheme, H2.shape[1]))[0]
+                    nv = (0.0 if rng.chance(0.5) else 10.0 ** rng.uniform(-3, 0) * amax(H2) ** 2) if fam else 0.0
+                    other = None
+                    if path == 'replace':   # a different channel, possibly of another size, in either layout
+                        oth2 = np.array(H2[::-1] * 2.0) if rng.chance(0.5) else np.array(H2) * (1.0 - 0.5j)
+                        other = channel_arg(scheme, oth2, layout if rng.chance(0.5) else 'matrix')
+                    case = {'scheme': scheme, 'path': path, 'layout': layout, 'H': enc(H2), 'x': enc(x), 'nv': nv,
+                            'other': enc(other) if other is not None else None}
+                    run_oracle(ctx, 'entry', case, key=('entry', idx))
+                    ctx.branch('entry:oracle')
+                    ctx.branch('entry:%s:%s' % (path, layout))
+                    # the same life cycle on the model object
+                    arg = channel_arg(scheme, H2, layout)
+                    if path == 'replace-other-layout':
+                        can_vec = (scheme == 'mrc' and H2.shape[1] == 1) or (scheme in ('mrt', 'alamouti') and H2.shape[0] == 1)
+                        other = channel_arg(scheme, H2 * (0.5 + 0.25j), 'vector' if (layout == 'matrix' and can_vec) else 'matrix')
+                    ops = [{'op': 'nv', 'v': nv}] if fam else []
+                    ops += [{'op': 'rt', 'x': enc(x)}, {'op': 'sinr', 'v': 0.5 * amax(H2) ** 2}]
+                    if path == 'ctor':
+                        hist = {'scheme': scheme, 'H0': enc(arg), 'ops': ops}
+                    elif path == 'setter':
+                        hist = {'scheme': scheme, 'H0': None, 'ops': [{'op': 'sc', 'H': enc(arg)}] + ops}
+                    elif path == 'set-twice':
+                        hist = {'scheme': scheme, 'H0': enc(arg), 'ops': [{'op': 'sc', 'H': enc(arg)}, {'op': 'sc', 'H': enc(arg)}] + ops}
+                    else:
+                        hist = {'scheme': scheme, 'H0': enc(other), 'ops': [{'op': 'rt', 'x': enc(x)} if np.asarray(other).size == arg.size else {'op': 'sinr', 'v': 0.3},
+                                                                             {'op': 'sc', 'H': enc(arg)}] + ops}
+                    corr_history(ctx, b, hist, ('entry-c', idx))
+                    ctx.branch('entry:corr')
+    b.flush()
+
+
 def shapes(max_n):
     return [(nr, nt) for nt in range(1, max_n + 1) for nr in range(nt, max_n + 1)]
 
@@ -2027,7 +2233,7 @@ def correspondence(ctx, g, reps, max_n):
     rng = ctx.rng
     quick = ctx.tier == 'quick'
     corr_guards(ctx, drv)
-    b = Batch(drv)
+    b = Batch(drv, ctx)
     idx = 0
 
     def noise(H):
@@ -2150,7 +2356,7 @@ def small_scope(ctx):
         idx = sorted({ctx.rng.below(len(chans)) for _ in range(60)})
         chans = [chans[i] for i in idx]
     drv = core.Driver(DRIVER)
-    b = Batch(drv)
+    b = Batch(drv, ctx)
     for i, H in enumerate(chans):
         nr, nt = H.shape
         x = np.exp(2j * np.pi * ((np.arange(2 * nt) * 3 + i) % 8) / 8)
@@ -2193,27 +2399,59 @@ def check(ctx):
                 'Gaussian-integer} x block lengths (incl. non-multiples) x noise variance {0, 1e-6..10 |h|^2}; '
                 'non-trivial = distinct (scheme, case, compared quantity)' % max_n)
     core.prove(ctx, MODULE, generated=[], drivers=[DRIVER], scratch=ctx.scratch)
-    run_corpus(ctx)
+    try:
+        run_corpus(ctx)
+    except Exception:
+        ctx.tie_broken('correspondence', 'section:corpus.exception', traceback.format_exc()[-1500:], None)
     g = Gen(ctx.rng.fork('gen'))
     ctx.required_branches = ['corr:blast:zf', 'corr:blast:mmse', 'corr:mrc:zf', 'corr:mrt', 'corr:svd:square',
                              'corr:svd:tall', 'corr:gmd:zf', 'corr:gmd:mmse', 'corr:alamouti', 'guard:error',
                              'guard:ok', 'hist:blast', 'hist:mrc', 'hist:mrt', 'hist:svd', 'hist:gmd', 'hist:alamouti',
-                             'R1:oracle', 'R1:corr', 'R2:oracle', 'R2:corr', 'R3:oracle', 'R3:corr', 'R4:oracle', 'R4:corr',
+                             'entry:oracle', 'entry:corr', 'entry:ctor:vector', 'entry:setter:vector', 'entry:replace:vector',
+                             'entry:ctor:matrix', 'hist-op:chan', 'R1:oracle', 'R1:corr', 'R2:oracle', 'R2:corr', 'R3:oracle', 'R3:corr', 'R4:oracle', 'R4:corr',
                              'R5:oracle', 'R5:corr', 'R6:oracle', 'R6:corr', 'R7:oracle', 'R7:corr', 'hist-op:set_noise_var:ok', 'hist-op:set_channel:ok', 'hist-op:set_channel:rejected', 'hist-op:dec',
                              'contract-ok:pinv', 'contract-ok:solve', 'contract-ok:svd', 'contract-ok:gmd']
-    try:
-        small_scope(ctx)
-        correspondence(ctx, g, 15 if quick else 150, max_n)
-        histories(ctx, Gen(ctx.rng.fork('hist')), 25 if quick else 100, max_n)
-        robustness(ctx, Gen(ctx.rng.fork('robust')), 12 if quick else 70, max_n)
-    except core.Infra as e:
-        if not ctx.broken:
-            raise
-        ctx.notes.append('correspondence skipped: %s' % e)
-        ctx.required_branches = []
-    oracle_cases(ctx, Gen(ctx.rng.fork('oracle')), 10 if quick else 100, max_n)
+    sections = [('small_scope', lambda: small_scope(ctx)),
+                ('entry_paths', lambda: entry_paths(ctx, Gen(ctx.rng.fork('entry')), 2 if quick else 12, max_n)),
+                ('correspondence', lambda: correspondence(ctx, g, 15 if quick else 150, max_n)),
+                ('histories', lambda: histories(ctx, Gen(ctx.rng.fork('hist')), 25 if quick else 100, max_n)),
+                ('robustness', lambda: robustness(ctx, Gen(ctx.rng.fork('robust')), 12 if quick else 70, max_n)),
+                ('oracle_cases', lambda: oracle_cases(ctx, Gen(ctx.rng.fork('oracle')), 10 if quick else 100, max_n))]
+    for name, fn in sections:
+        try:
+            fn()
+        except core.Infra as e:
+            if not ctx.broken:
+                raise
+            ctx.notes.append('%s skipped: %s' % (name, e))
+            ctx.required_branches = []
+        except Exception:  # whatever the tree under test makes the harness trip over: a verdict, never exit 2
+            ctx.branch('harness-exception:section:' + name)
+            ctx.tie_broken('correspondence', 'section:%s.exception' % name, traceback.format_exc()[-1500:], None)
 
 
 def search(ctx):
     g = Gen(ctx.rng.fork('search'))
-    oracle_cases(ctx, g, 6, 8, deep=True)
+    for fn in (lambda: entry_oracles_only(ctx, g, 6, 8), lambda: oracle_cases(ctx, g, 6, 8, deep=True)):
+        try:
+            fn()
+        except Exception:
+            ctx.tie_broken('correspondence', 'search.exception', traceback.format_exc()[-1500:], None)
+
+
+def entry_oracles_only(ctx, g, reps, max_n):
+    for rep in range(reps):
+        for scheme in ('mrc', 'mrt', 'alamouti', 'blast'):
+            for layout in (('matrix',) if scheme == 'blast' else ('matrix', 'vector')):
+                for path in ENTRY_PATHS:
+                    if scheme == 'blast':
+                        H2 = g.channel(3, 2)[0]
+                    elif scheme == 'mrc':
+                        H2 = g.channel(ctx.rng.randint(1, max_n), 1)[0]
+                    elif scheme == 'mrt':
+                        H2 = g.channel(ctx.rng.randint(1, max_n), 1)[0].reshape(1, -1)
+                    else:
+                        H2 = g.channel(2, 2)[0][:1, :] + 0.1
+                    x = g.data(n_symbols(ctx.rng, scheme, H2.shape[1]))[0]
+                    run_oracle(ctx, 'entry', {'scheme': scheme, 'path': path, 'layout': layout, 'H': enc(np.array(H2, dtype=complex)),
+                                              'x': enc(x), 'nv': 0.0, 'other': enc(np.array(H2) * 2.0) if path == 'replace' else None})
